@@ -241,6 +241,11 @@ fn run_step(s: &State, dir: &Path, step: &Value, ctx_init: &ContextInitializer) 
 	let want_trace = step["want_trace"].as_bool().unwrap_or(false);
 
 	TRACES.with_borrow_mut(Vec::clear);
+	RESOLVER_LOG.with_borrow_mut(Vec::clear);
+	if step["want_events"].as_bool().unwrap_or(false) {
+		let _ = jrsonnet_evaluator::verif::take();
+		jrsonnet_evaluator::verif::install();
+	}
 	// ext vars are per step (they live in the shared settings)
 	{
 		let mut st = ctx_init.settings_mut();
@@ -298,6 +303,12 @@ fn run_step(s: &State, dir: &Path, step: &Value, ctx_init: &ContextInitializer) 
 	let res = run();
 	let mut out = outcome_of(res, &trace_fmt, want_trace);
 	out["traces"] = Value::Array(TRACES.with_borrow_mut(std::mem::take));
+	if step["record_imports"].as_bool().unwrap_or(false) {
+		out["resolver_log"] = Value::Array(RESOLVER_LOG.with_borrow_mut(std::mem::take));
+	}
+	if step["want_events"].as_bool().unwrap_or(false) {
+		out["events"] = events_json(jrsonnet_evaluator::verif::take(), dir);
+	}
 	out["depth"] = json!(jrsonnet_evaluator::stack::verif::current_depth());
 	out["asserting"] = json!(jrsonnet_evaluator::verif::asserting_len());
 	out
@@ -432,19 +443,46 @@ pub fn cmd_eval(cmd: &Value) -> Value {
 		})
 		.unwrap_or_default();
 
+	// library path given the way the command line gives it: -J a -J b plus JSONNET_PATH
+	let via_cli = cmd.get("jlist").is_some();
+	let cli_resolver = if via_cli {
+		use clap::Parser;
+		let mut args: Vec<String> = vec!["x".to_owned()];
+		for j in cmd["jlist"].as_array().cloned().unwrap_or_default() {
+			args.push("-J".to_owned());
+			args.push(dir.join(j.as_str().expect("jlist entry")).to_string_lossy().into_owned());
+		}
+		let envp: Vec<PathBuf> = cmd["jsonnet_path"]
+			.as_array()
+			.map(|a| a.iter().map(|v| dir.join(v.as_str().expect("path"))).collect())
+			.unwrap_or_default();
+		if envp.is_empty() {
+			std::env::remove_var("JSONNET_PATH");
+		} else {
+			std::env::set_var("JSONNET_PATH", std::env::join_paths(envp).expect("join"));
+		}
+		let opts = jrsonnet_cli::MiscOpts::parse_from(args);
+		let r = opts.import_resolver();
+		std::env::remove_var("JSONNET_PATH");
+		Some(r)
+	} else {
+		None
+	};
+
 	let mut results = Vec::new();
 	let mut all_events = Value::Null;
 	{
 		let ctx_init = ContextInitializer::new(PathResolver::Relative(dir.clone()));
 		ctx_init.settings_mut().trace_printer = Rc::new(CollectingTracePrinter);
 		let mut b = State::builder();
+		let inner = cli_resolver.unwrap_or_else(|| FileImportResolver::new(jpath));
 		if record {
 			b.import_resolver(RecordingResolver {
-				inner: FileImportResolver::new(jpath),
+				inner,
 				root: dir.clone(),
 			});
 		} else {
-			b.import_resolver(FileImportResolver::new(jpath));
+			b.import_resolver(inner);
 		}
 		b.context_initializer(ctx_init.clone());
 		let s = b.build();
@@ -475,11 +513,8 @@ pub fn cmd_eval(cmd: &Value) -> Value {
 	out["entered_after"] = json!(jrsonnet_evaluator::verif::state_entered());
 	out["depth_before"] = json!(depth_before);
 	out["depth_after"] = json!(jrsonnet_evaluator::stack::verif::current_depth());
-	if want_events {
+	if want_events && out.get("events").is_none() {
 		out["events"] = all_events;
-	}
-	if record {
-		out["resolver_log"] = Value::Array(RESOLVER_LOG.with_borrow_mut(std::mem::take));
 	}
 	if want_gc {
 		let collected = jrsonnet_gcmodule::collect_thread_cycles();
